@@ -186,6 +186,9 @@ class C08(Property):
         'histories on one EqSystem object (solve, change rxn.param in place, solve again: every result judged against the CURRENT constants) '
         'and the varied entry points solve(init, varied) / roots on real runs: oracle only (kinds history, grid); the grid construction itself '
         'has a theorem (varied_grid_point_spec) and exact correspondence (op varied); fw callbacks re-read the constant at call time: correspondence (k_first)',
+        'warm starts on real runs (x0 = solution / initial state of another composition, array or dict; root and _solve): oracle kind warm; that the '
+        'parameter vector is init_concs ++ constants whatever x0 is: correspondence op root_args (stand-in solver capturing the real call) tied to the '
+        'model function rootArgs, about which warm_start_keeps_initial_totals is a theorem',
         'the default tolerances rtol=1e-9 / 1e-14 are model constants tied to the source by correspondence buckets (sane:default-*, fw:default-*), not extracted',
     )
     anchors = (
@@ -322,7 +325,7 @@ class C08(Property):
         n_solver = max(60, n // 5)
         n_craft = n - n_solver
         ops = ['ucb', 'sane', 'sane', 'sane', 'precip_stoich', 'dissolved', 'dissolved', 'fw', 'fw', 'bw', 'ptidx', 'nonprecip',
-               'quotient', 'rc_interval', 'rc_interval', 'bracket', 'residual', 'net_stoich', 'varied', 'varied']
+               'quotient', 'rc_interval', 'rc_interval', 'bracket', 'residual', 'net_stoich', 'varied', 'varied', 'root_args']
         for i in range(n_craft):
             cases.append(self._gen_crafted(rng, ops[i % len(ops)]))
         cases.extend(self._gen_solver(rng, n_solver))
@@ -450,6 +453,14 @@ class C08(Property):
             if rng.random() < 0.3:       # history: the callback is created while the reaction has another constant, which is then changed in place
                 c['k_first'] = rj(k * F(rng.choice([1, 3, 1000]), rng.choice([1, 7, 1000])))
             return c
+        if op == 'root_args':
+            ns = rng.randint(2, 5)
+            nr = rng.randint(1, 3)
+            u = rng.random()
+            x0 = None if u < 0.25 else [rj(self._dy(rng, 0, 400, 16)) for _ in range(ns)]
+            return {'op': 'root_args', 'entry': rng.choice(['root', '_solve']), 'x0_as': rng.choice(['array', 'array', 'list']),
+                    'init': [rj(self._dy(rng, 1, 400, 16)) for _ in range(ns)], 'x0': x0,
+                    'consts': [rj(self._dy(rng, 1, 4000, 32)) for _ in range(nr)]}
         if op == 'varied':
             ns = rng.randint(1, 5)
             base = [self._dy(rng) for _ in range(ns)]
@@ -658,6 +669,21 @@ class C08(Property):
             cases.append({'kind': 'grid', 'api': api, 'eqs': sel, 'logK': [round(POOL[nm][2] + rng.uniform(-1.5, 1.5), 6) for nm in sel],
                           'subs': subs, 'init': [55.5 if s_ == 'H2O' else float('%.6g' % 10 ** rng.uniform(-5, -1)) for s_ in subs],
                           'varied': [[k, sorted(float('%.6g' % 10 ** rng.uniform(-5, -1)) for _ in range(m))] for k in vk]})
+        # warm starts: the documented x0= argument with a guess that belongs to ANOTHER composition (titration / series walking)
+        for j in range(max(12, n // 35)):
+            fam = j % 2
+            sel = (['water'] + rng.sample(ACIDBASE, rng.randint(1, 3))) if fam else rng.sample(names, rng.choice([1, 2, 3]))
+            subs = []
+            for nm in sel:
+                for s_ in list(POOL[nm][0]) + list(POOL[nm][1]):
+                    if s_ not in subs:
+                        subs.append(s_)
+            rng.shuffle(subs)
+            mk = lambda: [55.5 if s_ == 'H2O' else float('%.6g' % 10 ** rng.uniform(-5, -1)) for s_ in subs]
+            cases.append({'kind': 'warm', 'eqs': sel, 'logK': [round(POOL[nm][2] + rng.uniform(-1.5, 1.5), 6) for nm in sel], 'subs': subs,
+                          'init1': mk(), 'init2': mk(), 'entry': ['root', 'root', '_solve'][j % 3],
+                          'variant': rng.choice(['default', 'log', 'loglin']), 'guess': rng.choice(['solution1', 'solution1', 'init1']),
+                          'x0_as': rng.choice(['array', 'dict'])})
         # histories on ONE EqSystem object: constants changed in place between solves (Ksp / K scans)
         for j in range(max(15, n // 30)):
             if j % 3 != 2:
@@ -737,7 +763,8 @@ class C08(Property):
                 else:
                     x, sol, sane = es.root(init, **_variant_kwargs(c['variant']))
             res.update(success=_success(sol), sane=bool(sane), x=[float(v) for v in np.asarray(x, dtype=float)], maxfun=_max_fun(sol),
-                       inner_success=bool(_inner(sol).get('success')) if 'success' in _inner(sol) else None)
+                       inner_success=bool(_inner(sol).get('success')) if 'success' in _inner(sol) else None,
+                       conditions=[bool(b) for b in sol['conditions']] if isinstance(sol, dict) and 'conditions' in sol else None)
             if c['variant'] == 'solve':          # EqCalcResult carries no stage info; known_key fetches it from _solve when needed
                 del res['maxfun'], res['inner_success']
             res['outcome'] = ('success' if res['success'] else 'nosuccess') + ('+sane' if res['sane'] else '+insane')
@@ -801,6 +828,9 @@ class C08(Property):
                     return str(bool(fw(obj(c['x']), None)))
                 if op == 'varied':
                     return self._varied_impl(c)
+                if op == 'root_args':
+                    g, p_ = self._captured_root_args(c)
+                    return '%s;%s' % (show_rat_list(F(float(v)) for v in g), show_rat_list(F(float(v)) for v in p_))
                 if op == 'bw':
                     es = self._build(c['phases'], c['rxns'])
                     return str(bool(es._bw_cond_factory(c['ri'], _fr(c['small']))(obj(c['x']), None)))
@@ -826,6 +856,27 @@ class C08(Property):
         except Exception as e:
             return exc_name(e)
         return '!unknown-op'
+
+    def _captured_root_args(self, c):
+        """(x0, params) that EqSystem.root / _solve really hand to the solver, captured with a stand-in solver object"""
+        import numpy as np
+        ns = len(c['init'])
+        rx = {'reac': [[0, 1]], 'prod': [[1, 1]], 'inact_reac': [], 'inact_prod': []}
+        es = self._build([0] * ns, [rx] * len(c['consts']), params=[float(_fr(v)) for v in c['consts']])
+        box = {}
+
+        class Capture:
+            def solve(self, x0, params, **kw):
+                box['x0'], box['params'] = [float(v) for v in x0], [float(v) for v in params]
+                return np.asarray(x0, dtype=float), {'success': True}
+        init = np.array([float(_fr(v)) for v in c['init']])
+        x0 = None
+        if c.get('x0') is not None:
+            x0 = [float(_fr(v)) for v in c['x0']]
+            if c.get('x0_as') != 'list':
+                x0 = np.array(x0)
+        (es.root if c.get('entry', 'root') == 'root' else es._solve)(init, x0=x0, neqsys=Capture())
+        return box['x0'], box['params']
 
     def _varied_call(self, c):
         from chempy import ReactionSystem, Substance
@@ -961,6 +1012,15 @@ class C08(Property):
                 return 'lower end %s of the bracket is not the largest feasible one' % lo
             if any(s < 0 for s in stoich) and all(a + s * (up + F(1, 10 ** 6)) >= 0 for a, s in zip(c0, stoich)):
                 return 'upper end %s of the bracket is not the largest feasible one' % up
+        elif op == 'root_args':
+            g, p_ = self._captured_root_args(c)
+            init, consts = [float(_fr(v)) for v in c['init']], [float(_fr(v)) for v in c['consts']]
+            if p_ != init + consts:
+                return ('%s(init, x0=%s): the parameter vector handed to the solver is %s, not init_concs ++ constants = %s (the conservation '
+                        'equations must refer to the initial composition, never to the guess)' % (c.get('entry'), c.get('x0'), p_, init + consts))
+            want_g = init if c.get('x0') is None else [float(_fr(v)) for v in c['x0']]
+            if g != want_g:
+                return '%s: the starting guess handed to the solver is %s, expected %s' % (c.get('entry'), g, want_g)
         elif op == 'varied':
             ns, base = c['ns'], _frl(c['base'])
             if len(base) != ns or any(k >= ns for k, _ in c['varied']):
@@ -1112,6 +1172,42 @@ class C08(Property):
             return self._oracle_grid(c)
         if kind == 'history':
             return self._oracle_history(c)
+        if kind == 'warm':
+            return self._oracle_warm(c)
+        return None
+
+    def _oracle_warm(self, c):
+        """root / _solve with x0 = the solution (or the initial state) of ANOTHER composition: a result reporting success and sane must be a
+        genuine equilibrium of init2 — its totals are those of init_concs, never those of the guess"""
+        import numpy as np
+        es = self._build_pool({'kind': 'homog', 'eqs': c['eqs'], 'logK': c['logK'], 'subs': c['subs']})
+        kw = _variant_kwargs(c['variant'])
+        i1, i2 = dict(zip(c['subs'], c['init1'])), dict(zip(c['subs'], c['init2']))
+        if c['guess'] == 'solution1':
+            x1, sol1, sane1 = es.root(i1, **kw)
+            if not (_success(sol1) and sane1):
+                return None
+            guess = np.asarray(x1, dtype=float)
+        else:
+            guess = es.as_per_substance_array(i1)
+        x0 = dict(zip(c['subs'], [float(v) for v in guess])) if c['x0_as'] == 'dict' else guess
+        c2 = es.as_per_substance_array(i2)
+        try:
+            if c['entry'] == 'root':
+                x, sol, sane = es.root(i2, x0=x0, **kw)
+            else:
+                x, sol, sane = es._solve(c2, x0=x0, **({} if c['variant'] == 'default' else kw))
+        except Exception:
+            return None                     # e.g. a dict guess is not accepted: no success claimed
+        if not (_success(sol) and sane):
+            return None
+        bad = self._genuine(es, c2, x, tol=_solver_tol(c['variant']))
+        if bad:
+            A = np.array(es.composition_balance_vectors()[0], dtype=float)
+            like_guess = bool(np.allclose(A @ np.asarray(x, dtype=float), A @ guess, rtol=1e-6, atol=1e-12))
+            return ('%s(init2, x0=<%s of another composition, as %s>, %s) reports success and a sane result but %s%s' % (
+                c['entry'], c['guess'], c['x0_as'], c['variant'], bad[1],
+                ' — the result carries the element totals of the GUESS' if like_guess else ''))
         return None
 
     def _oracle_grid(self, c):
@@ -1262,6 +1358,20 @@ class C08(Property):
                     r['maxfun'], r['inner_success'] = _max_fun(sol), (bool(_inner(sol).get('success')) if 'success' in _inner(sol) else None)
                 except Exception:
                     r['maxfun'] = None
+            if r.get('maxfun') is None and r.get('x') is not None and c['variant'] == 'condchain':
+                # ConditionalNeqSys wrapping a chain drops the stages' info: evaluate the residual of the last formulation (NumSysLin) at the
+                # returned point ourselves, with the condition vector the solver reports
+                try:
+                    import numpy as np
+                    from chempy.equilibria import NumSysLin
+                    es = self._build_pool(c)
+                    c0 = es.as_per_substance_array(dict(zip(c['subs'], c['init'])))
+                    params = list(c0) + [float(k) for k in es.eq_constants()]
+                    conds = tuple(r.get('conditions') or (False,) * len(es.phase_transfer_reaction_idxs()))
+                    f = NumSysLin(es, precipitates=conds, backend='math').f(list(r['x']), params)
+                    r['maxfun'] = float(np.max(np.abs(np.asarray([float(v) for v in f]))))
+                except Exception:
+                    r['maxfun'] = None
             if (r.get('maxfun') is not None and r['maxfun'] > 1e-8 and r.get('inner_success') is True
                     and isinstance(failure, str) and 'reports success and a sane result' in failure):
                 return 'lm-nonroot-reported-as-success'
@@ -1287,6 +1397,8 @@ class C08(Property):
             return 'grid:%s:%d-varied' % (c['api'], len(c['varied']))
         if k == 'history':
             return 'history:%s:%s' % (c['system']['kind'], c['variant'])
+        if k == 'warm':
+            return 'warm:%s:%s:%s:%s' % (c['entry'], c['variant'], c['guess'], c['x0_as'])
         return 'solve:' + str(k)
 
     def nontrivial(self, c):
